@@ -39,11 +39,14 @@ Fill(n, x) == [i \in 1..n |-> x]
 
 \* index classes of the property: negative, 0, size-1, size, size+1, huge
 IdxClasses(n) == {-1, 0, n - 1, n, n + 1, Huge}
+\* the index may arrive in any arithmetic type (b = 1 size_t, 2 long, 3 unsigned int; plain "idx" is an int literal): the bounds rule is the same
+IdxTypes == {1, 2, 3}
 
 -----------------------------------------------------------------------------
 (* Vector<Boxed_Value> holding ints *)
 VecOps(s) ==
-   {Op("idx", i, 0) : i \in IdxClasses(Len(s))} \cup {Op("front", 0, 0), Op("back", 0, 0), Op("pop_back", 0, 0),
+   {Op("idx", i, 0) : i \in IdxClasses(Len(s))} \cup {Op("idx_t", i, t) : i \in IdxClasses(Len(s)), t \in IdxTypes}
+   \cup {Op("front", 0, 0), Op("back", 0, 0), Op("pop_back", 0, 0),
     Op("clear", 0, 0), Op("size", 0, 0), Op("empty", 0, 0)}
    \cup {Op("push_back", v, 0) : v \in Vals}
    \cup {Op("insert_at", i, 1) : i \in IdxClasses(Len(s))}
@@ -54,7 +57,7 @@ VecOps(s) ==
 
 ApplyVec(s, op) ==
   LET n == Len(s) IN
-  CASE op.n = "idx"       -> (IF op.a >= 0 /\ op.a < n THEN [res |-> ElemR(s[op.a + 1]), st |-> s] ELSE [res |-> Throw, st |-> s])
+  CASE op.n \in {"idx", "idx_t"} -> (IF op.a >= 0 /\ op.a < n THEN [res |-> ElemR(s[op.a + 1]), st |-> s] ELSE [res |-> Throw, st |-> s])
     [] op.n = "front"     -> (IF n = 0 THEN [res |-> Throw, st |-> s] ELSE [res |-> ElemR(s[1]), st |-> s])
     [] op.n = "back"      -> (IF n = 0 THEN [res |-> Throw, st |-> s] ELSE [res |-> ElemR(s[n]), st |-> s])
     [] op.n = "pop_back"  -> (IF n = 0 THEN [res |-> Throw, st |-> s] ELSE [res |-> Void, st |-> SubSeq(s, 1, n - 1)])
@@ -96,7 +99,8 @@ Subs == {<<>>, <<"a">>, <<"b">>, <<"a", "b">>}
 PosClasses(n) == {0, n, n + 1, Huge} \cup (IF n > 0 THEN {n - 1} ELSE {})
 
 StrOps(s) ==
-   {Op("idx", i, 0) : i \in IdxClasses(Len(s))} \cup {Op("clear", 0, 0), Op("size", 0, 0), Op("empty", 0, 0)}
+   {Op("idx", i, 0) : i \in IdxClasses(Len(s))} \cup {Op("idx_t", i, t) : i \in IdxClasses(Len(s)), t \in IdxTypes}
+   \cup {Op("clear", 0, 0), Op("size", 0, 0), Op("empty", 0, 0)}
    \cup {OpS("push_back", 0, <<c>>) : c \in Chars}
    \cup {OpS("append", 0, sub) : sub \in {<<>>, <<"a", "b">>}}
    \cup {Op("substr", p, l) : p \in PosClasses(Len(s)), l \in {0, 1, Huge}}
@@ -107,7 +111,7 @@ StrOps(s) ==
 
 ApplyStr(s, op) ==
   LET n == Len(s) IN
-  CASE op.n = "idx"       -> (IF op.a >= 0 /\ op.a < n THEN [res |-> CharR(s[op.a + 1]), st |-> s] ELSE [res |-> Throw, st |-> s])
+  CASE op.n \in {"idx", "idx_t"} -> (IF op.a >= 0 /\ op.a < n THEN [res |-> CharR(s[op.a + 1]), st |-> s] ELSE [res |-> Throw, st |-> s])
     [] op.n = "clear"     -> [res |-> Void, st |-> <<>>]
     [] op.n = "size"      -> [res |-> SizeR(n), st |-> s]
     [] op.n = "empty"     -> [res |-> BoolR(n = 0), st |-> s]
